@@ -1,6 +1,7 @@
 import Driver.Loop
 import OPM.Model.Wire
 import OPM.Model.Runner
+import OPM.Model.RunnerCalm
 namespace Driver.Runner
 open OPM OPM.Wire OPM.Runner
 
@@ -90,17 +91,52 @@ def runTokens (nx : State → Ev → Option State) (fin : State → String) (s :
         | some s' => runTokens nx fin s' (k + 1) ts
         | none => "rej " ++ toString k ++ " " ++ t ++ " st=" ++ showState s.st
 
+/-- which hypothesis of the partial theorems the trace leaves first: `calm` or `not <a|b|c|d|e|f> <index>` -/
+def calmTokens (s : State) (k : Nat) : List String → String
+  | [] => "calm"
+  | t :: ts =>
+    match parseTok t with
+    | none => "bad-op " ++ toString k ++ " " ++ t
+    | some (e, _) =>
+      if !calmLoss s e then
+        "not " ++ (match e with | .cancel _ => "f" | _ => "a") ++ " " ++ toString k
+      else if !calmOrder s e then
+        "not " ++ (match e with | .send _ _ => "b" | .fail _ => "c" | .taskClear _ => "e" | _ => "d") ++ " " ++ toString k
+      else match next s e with
+        | some s' => calmTokens s' (k + 1) ts
+        | none => "rej " ++ toString k ++ " " ++ t
+
+/-- one pass: model-side verdicts (`ov`, `stuck`) and the first step outside the partial theorems' hypotheses -/
+def infoTokens (s : State) (k : Nat) (cls : String) : List String → String
+  | [] => flags s ++ " cls=" ++ cls
+  | t :: ts =>
+    match parseTok t with
+    | none => "bad-op " ++ toString k ++ " " ++ t
+    | some (e, _) =>
+      let cls' := if cls != "calm" then cls
+        else if !calmLoss s e then (match e with | .cancel _ => "f" | _ => "a")
+        else if !calmOrder s e then
+          (match e with | .send _ _ => "b" | .fail _ => "c" | .taskClear _ => "e" | _ => "d")
+        else "calm"
+      match next s e with
+      | some s' => infoTokens s' (k + 1) cls' ts
+      | none => "rej " ++ toString k ++ " " ++ t
+
 def toks (s : String) : List String := (s.splitOn " ").filter (· ≠ "")
 
 /-- ops:  `trace <tok> <tok> …`   → `acc st=… buf=… infl=… dlv=… ctr=… limbo=… lost=…` | `rej <index> <token> …`
           `mutant <tok> …`        → same with the mutant transition function (self-test)
           `flags <tok> …`         → `ov=<0|1> stuck=<ids>` (model-side order / stuck verdict) | `rej …`
-          `verdict <tok> …`       → `acc` | `rej` -/
+          `verdict <tok> …`       → `acc` | `rej`
+          `info <tok> …`          → `ov=<0|1> stuck=<ids> cls=<calm|a..f>` (flags + calm class in one pass)
+          `calm <tok> …`          → `calm` | `not <a..f> <index>` (first step outside the partial theorems' hypotheses) -/
 def step (_ : Unit) (line : String) : Unit × String :=
   match fields line with
   | ["trace", t] => ((), runTokens next summary init 0 (toks t))
   | ["mutant", t] => ((), runTokens nextMutant summary init 0 (toks t))
   | ["flags", t] => ((), runTokens next flags init 0 (toks t))
+  | ["calm", t] => ((), calmTokens init 0 (toks t))
+  | ["info", t] => ((), infoTokens init 0 "calm" (toks t))
   | ["verdict", t] => ((), ((runTokens next (fun _ => "acc") init 0 (toks t)).take 3).toString)
   | _ => ((), "bad-op")
 
